@@ -187,3 +187,46 @@ Proof. vm_compute. repeat split; reflexivity. Qed.
 
 Example C18_concrete : slices 10 4 = [(0,4);(4,8);(8,10)] /\ random_sizes 10 4 = [4;4;2].
 Proof. vm_compute. split; reflexivity. Qed.
+
+(* ---------------- the parameter that configures the chunk size: its value, whatever its type ---------------- *)
+(* what is handed over as chunk size (nothing, or the integral value of a Python int / numpy integer of any width / bool)
+   determines the requests through its VALUE alone; the checkers evaluate the default as max 1 n (capped_cs) *)
+Theorem C18_param_requests_by_value : forall dflt n p, n <= dflt ->
+  param_slices dflt n p = slices n (capped_cs n p).
+Proof. exact param_requests_by_value. Qed.
+Print Assumptions C18_param_requests_by_value.
+
+Theorem C18_param_requests_spec : forall dflt n p, 1 <= dflt ->
+  concat (map range (param_slices dflt n p)) = seq 0 n /\
+  Forall (fun se => 1 <= slice_len se <= configured_cs dflt p /\ snd se <= n) (param_slices dflt n p).
+Proof. exact param_requests_spec. Qed.
+Print Assumptions C18_param_requests_spec.
+
+(* nothing handed over, or a falsy value (0, False): the library's default; one request, the input being no larger
+   than the chunk *)
+Theorem C18_default_single_request : forall n, 1 <= n <= default_chunksize ->
+  param_slices default_chunksize n None = [(0, n)] /\ param_slices default_chunksize n (Some 0) = [(0, n)].
+Proof. exact (param_default_single default_chunksize). Qed.
+Print Assumptions C18_default_single_request.
+
+(* keeping the parameter only when it passes a test on its type: refuted for every value below the input length (and
+   the default), invisible when the input fits into one chunk *)
+Theorem C18_typed_discard_refuted : forall dflt n v, 1 <= v -> v < n -> v < dflt ->
+  exists se, In se (slices n (configured_cs_typed false dflt (Some v))) /\ v < slice_len se.
+Proof. exact typed_discard_refuted. Qed.
+Print Assumptions C18_typed_discard_refuted.
+
+Theorem C18_typed_discard_invisible : forall dflt n v, n <= v -> n <= dflt ->
+  slices n (configured_cs_typed false dflt (Some v)) = slices n v.
+Proof. exact typed_discard_invisible. Qed.
+Print Assumptions C18_typed_discard_invisible.
+
+Example C18_param_concrete :
+  param_slices 100 10 (Some 4) = [(0,4);(4,8);(8,10)]
+  /\ param_slices 100 10 (Some 0) = [(0,10)] /\ param_slices 100 10 None = [(0,10)]
+  /\ slices 10 (configured_cs_typed false 100 (Some 4)) = [(0,10)]
+  /\ c18_param_case 10 (Some 4) 1 [[(0,4);(4,8);(8,10)]] = 0
+  /\ c18_param_case 10 (Some 4) 1 [[(0,10)]] = 3
+  /\ c18_param_case 10 None 2 [[(0,10)]; [(0,10)]] = 0
+  /\ c18_param_case 10 (Some 1) 1 [[(0,10)]] = 3.
+Proof. vm_compute. repeat split; reflexivity. Qed.
